@@ -68,4 +68,14 @@ CHECKS = {
         "rule": "crash points enumerated per block of rapid-generated histories (5-14 blocks); evaluations = histories, extra.crash_points = examined points per label; non-trivial = a history with at least one examined crash point strictly inside Commit; distinct = distinct (tx shape, number of points) hashes",
         "assumptions": COMMON_ASSUME + ["no background writer touches the data directory while it is copied (goleveldb compaction does not run on these kilobyte-sized stores)"],
     },
+    "C09": {
+        "test": "TestC09", "level": "exploration", "engine": "fuzz",
+        "technique": "property-based robustness testing: structured hostile transactions/queries and raw byte mutations (rapid), plus go native coverage-guided fuzzing in the thorough tier",
+        "level_text": "Exploration: inside generated block histories more than half of the delivered txs are hostile envelopes (every field hostile: address lengths 0..40, 256-bit amounts, gas 0/2^63/2^64-1, types -3..12, payloads of the right or wrong type with hostile contents, option documents that are not JSON/nested/signed numbers, 5000-byte names), most of them correctly signed by a funded account with the right nonce and price so they reach the controllers, some byte-mutated; hostile CheckTx and Query calls (all paths incl. vm_call, data lengths 0..80, heights -2^63..2^63-1) are served inside and between blocks. Oracle: every call returns, no panic (recovered and reported), afterwards a canned valid transfer still succeeds and commits.",
+        "level_note": "Protocol violations by the consensus engine itself (DeliverTx outside a block, wrong heights) are not external input and are not generated. vm_call needs rpc/core's environment; the harness installs a fake BlockStore knowing the headers it fed.",
+        "quick": {"checks": 400, "timeout": 600},
+        "thorough": {"checks": 3000, "shards": 15, "timeout": 3000},
+        "rule": "rapid-generated histories with hostile DeliverTx/CheckTx/Query inputs; non-trivial = at least one delivered tx decoded and reached a controller (succeeded or failed late); labels count accepted hostile CheckTx and query answers per path; distinct = distinct (tx type,outcome) shape hashes",
+        "assumptions": COMMON_ASSUME,
+    },
 }
